@@ -58,13 +58,45 @@ def run(ck, tier):
     res = starklib.run_pipeline(binary, "c01-degenerate", deg)
     judge(ck, "degenerate", deg, res)
     ck.sample(starklib.shrink(b[1]))
-    n = 4000 if thorough else 400
+    n = 4000 if thorough else 250
     s = starklib.generate(ck, "SimStarkCfg_thorough.cfg" if thorough else "SimStarkCfg.cfg", "simulate", simulate=n, depth=40)
     ck.require(len(s) >= n // 4, "simulation produced too few supported configurations: %d of %d" % (len(s), n))
     res = starklib.run_pipeline(binary, "c01-sim", s)
     judge(ck, "simulate", s, res)
     for x in s[:2]:
         ck.sample(starklib.shrink(x))
+    # the AIRs bundled with the repository, options from the specification (StarkExamples.tla)
+    ne = 400 if thorough else 40
+    r = vf.tlc("StarkExamples.tla", "SimStarkExamples.cfg", cwd=starklib.SPECDIR, workers=1, simulate=ne, depth=10,
+               seed=ck.seed, timeout=1800)
+    if not r.ok:
+        raise vf.ToolError("StarkExamples generator failed: %s" % (r.error or "")[:1500])
+    ck.add_tlc("examples", r)
+    ex = r.tagged("EXAMPLE")
+    ck.require(len(ex) >= ne // 2, "too few example cases: %d" % len(ex))
+    res = starklib.run_pipeline(binary, "c01-examples", ex, engine="examples", timeout=3000)
+    bad = 0
+    for c, r2 in zip(ex, res):
+        e = c["expect"]
+        what = None
+        if r2.get("verdict") != "accept" or r2.get("roundtrip_equal") is not True:
+            what = "verdict=%s" % r2.get("verdict")
+        else:
+            for k in ("fri_layers", "lde_domain", "trace_len"):
+                if r2.get(k) != e[k]:
+                    what = "%s expected=%s got=%s" % (k, e[k], r2.get(k))
+                    break
+        if what:
+            bad += 1
+            ck.violation("C01 example %s %s" % (c["example"], what), json.dumps({"case": c, "result": r2})[:600],
+                         {"engine": "examples", "case": c, "result": r2})
+        elif not str(r2.get("wrong_inputs", "")).startswith("reject"):
+            bad += 1
+            ck.violation("C01/C02 example %s accepts wrong public inputs" % c["example"], json.dumps({"case": c, "result": r2})[:600],
+                         {"engine": "examples", "case": c, "result": r2})
+    ck.traces += len(ex)
+    ck.part("examples", cases=len(ex), mismatches=bad, names=sorted({c["example"] for c in ex}))
+    ck.sample(ex[0])
     # coverage of the option space actually exercised
     cov = {}
     for c in b + s:
@@ -89,5 +121,10 @@ def replay(ck, path):
     binary = vf.build_harness("stark")
     obj = json.load(open(path))
     c = obj["replay"]["case"]
+    if obj["replay"]["engine"] == "examples":
+        r2 = starklib.run_pipeline(binary, "c01-replay", [c], engine="examples")[0]
+        if r2.get("verdict") != "accept":
+            ck.violation("C01 example %s verdict=%s" % (c["example"], r2.get("verdict")), json.dumps(r2)[:400], obj["replay"])
+        return
     res = starklib.run_pipeline(binary, "c01-replay", [c])
     judge(ck, "replay", [c], res)
